@@ -7,5 +7,6 @@ mkdir -p .cache evidence replays
 cd lean
 mods=""
 for f in Poupool/Properties/*.lean; do m=$(basename "$f" .lean); mods="$mods Poupool.Properties.$m"; done
+for f in Poupool/Properties/DecisionsTie/*.lean; do m=$(basename "$f" .lean); mods="$mods Poupool.Properties.DecisionsTie.$m"; done
 lake build fixpoint timeddrv stepdrv $mods 2>&1 | grep -v "^✔\|^⚠\|warning\|Hint\|Note\|apply\]\|^$\|List.all_append" | tail -5
 exit 0
